@@ -25,9 +25,16 @@
                             min(len, 23) octets into si4_msg, then si4_tail; si4 := 1 on success;  CRet rc cell | COOB
      sysinfo1 freq1 x    := the tail of gsm48_decode_sysinfo1: table := freq1 (what decode_freq_list left), si1 := 1, and if si4 is set
                             sysinfo4 on the stored buffer with length 23, result ignored
-     cell_ok x           := |c_buf x| = 23, octets, |freq| = 1024, |hopping| = 64. *)
+     cell_ok x           := |c_buf x| = 23, octets, |freq| = 1024, |hopping| = 64.
+   The assignment messages (Model/MobAllocAss.v), fourth part of this file:
+     lv_copy limit slack tl lv0 := the guards and the memcpy 'message -> cd_now.mob_alloc_lv' of gsm48_rr.c; tl = the message from its
+                            mob_alloc_len octet on, lv0 = the array before; ARefuse rc | ACopied array | AOOB (read behind the message /
+                            write behind the array).  IMMEDIATE ASSIGNMENT: limit 8 slack 0, IMMEDIATE ASSIGNMENT EXTENDED (both
+                            request references): limit 4 slack 0, FREQUENCY REDEFINITION: limit 8 slack 2
+     imm_handler limit ours h tl .. := the two immediate-assignment handlers: guards, copy into the zeroed cd_now if the request
+                            reference is ours, then gsm48_rr_dl_est -> gsm48_rr_render_ma (h = hopping channel description). *)
 From Coq Require Import ZArith List.
-From OBB Require Import Base.Range Gen.MobAllocConst Gen.MobAllocSi4Const Model.MobAlloc Model.MobAllocSi4 Model.MobAllocHist Proofs.MobAllocP Proofs.MobAllocSi4P Proofs.MobAllocHistP.
+From OBB Require Import Base.Range Gen.MobAllocConst Gen.MobAllocSi4Const Model.MobAlloc Model.MobAllocSi4 Model.MobAllocHist Model.MobAllocAss Proofs.MobAllocP Proofs.MobAllocSi4P Proofs.MobAllocHistP Proofs.MobAllocAssP.
 Import ListNotations.
 Open Scope Z_scope.
 
@@ -308,3 +315,52 @@ Theorem c20_hist_short_stale_refuted :
   hobs (after (sysinfo1 T1 (x00 stale_buf)) (sysinfo4 hdr0)) = [0; 1; 1; 0; 7; 7; 7; 7].
 Proof. exact short_stale_refuted. Qed.
 Print Assumptions c20_hist_short_stale_refuted.
+
+(* ==================================================================== message -> cd_now.mob_alloc_lv -> list given to L1 *)
+
+(* a message whose length octet l passes the guards (l <= limit, l value octets present, slack more octets where the handler
+   demands them): the array holds the length octet and exactly the l value octets of the MESSAGE, the octets behind keep their
+   value - nothing lost, nothing else written.  Instances: IMMEDIATE ASSIGNMENT (limit 8, slack 0), IMMEDIATE ASSIGNMENT EXTENDED
+   request reference 1 and 2 (limit 4, slack 0), FREQUENCY REDEFINITION (limit 8, slack 2) *)
+Theorem c20_assign_copy_exact : forall limit slack l v rest lv0,
+  Zlength v = l -> l <= limit -> 0 <= slack <= Zlength rest -> l + 1 <= Zlength lv0 ->
+  lv_copy limit slack (l :: v ++ rest) lv0 = ACopied (l :: v ++ skipn (Z.to_nat (l + 1)) lv0).
+Proof. exact lv_copy_ok. Qed.
+Print Assumptions c20_assign_copy_exact.
+
+(* for EVERY message tail and every limit <= 8: refused with -EINVAL, or copied inside the message and inside the 9-octet array,
+   with the stored length octet <= limit.  (The guards of the pinned handlers have limit 8 / 4 / 8: no overrun.) *)
+Theorem c20_assign_copy_in_bounds : forall limit slack tl lv0,
+  octets tl -> octets lv0 -> Zlength lv0 = 9 -> limit <= 8 -> 0 <= slack ->
+  lv_copy limit slack tl lv0 = ARefuse (-22) \/
+  exists lv, lv_copy limit slack tl lv0 = ACopied lv /\ Zlength lv = 9 /\ octets lv /\ 0 <= zn lv 0 <= limit /\ zn lv 0 = zn tl 0.
+Proof. exact lv_copy_safe. Qed.
+Print Assumptions c20_assign_copy_in_bounds.
+
+(* the refusals: a length octet above the limit; fewer octets behind it than it announces (+ slack); no length octet at all *)
+Theorem c20_assign_too_large : forall limit slack tl lv0 l, rd tl 0 = Some l -> limit < l -> lv_copy limit slack tl lv0 = ARefuse (-22).
+Proof. exact lv_copy_too_large. Qed.
+Print Assumptions c20_assign_too_large.
+Theorem c20_assign_short : forall limit slack l v' lv0, Zlength v' < l + slack -> lv_copy limit slack (l :: v') lv0 = ARefuse (-22).
+Proof. exact lv_copy_short. Qed.
+Print Assumptions c20_assign_short.
+
+(* IMMEDIATE ASSIGNMENT (limit 8) / IMMEDIATE ASSIGNMENT EXTENDED (limit 4), our request reference, hopping channel, 1..limit
+   bitmap octets: cd_now.mob_alloc_lv = length octet, the value octets of the message, zeros; and the list handed to L1 by
+   gsm48_rr_render_ma is exactly the specified one for the bitmap v IN THE MESSAGE (cause 0x65 if it is empty) *)
+Theorem c20_assign_imm_spec : forall limit ours l v rest freq ma ma_len,
+  (limit = 8 \/ limit = 4) -> ours <> 0 -> Zlength v = l -> 1 <= l <= limit -> Zlength freq = 1024 -> Zlength ma = 64 ->
+  exists freq', imm_handler limit ours 1 (l :: v ++ rest) freq ma ma_len =
+    AsEst (l :: v ++ map (fun _ => 0) (range 0 (8 - l)))
+          (Ok (if Zlength (spec_hopping freq v l) <? 1 then 101 else 0)
+              (mkst freq' (spec_hopping freq v l ++ skipn (length (spec_hopping freq v l)) ma) (Zlength (spec_hopping freq v l)))).
+Proof. exact imm_spec. Qed.
+Print Assumptions c20_assign_imm_spec.
+
+(* ... and for EVERY message tail: refused, not ours, or established without leaving the message, the array, the table or ma[64] *)
+Theorem c20_assign_imm_in_bounds : forall limit ours h tl freq ma ma_len,
+  (limit = 8 \/ limit = 4) -> octets tl -> Zlength freq = 1024 -> Zlength ma = 64 ->
+  imm_handler limit ours h tl freq ma ma_len = AsRefused (-22) \/ imm_handler limit ours h tl freq ma ma_len = AsNotOurs \/
+  exists lv rc s, imm_handler limit ours h tl freq ma ma_len = AsEst lv (Ok rc s) /\ Zlength lv = 9 /\ zn lv 0 <= limit.
+Proof. exact imm_safe. Qed.
+Print Assumptions c20_assign_imm_in_bounds.
